@@ -1,14 +1,20 @@
 (* Corr/C04.v — fill_contiguous programs, and the source-extracted 16-bit-pointer helper variants *)
-Require Import Model.Base Model.Ptr16 Corr.Common Corr.Draw.
+Require Import Model.Base Model.Ptr16 Corr.Common Corr.Draw Corr.L2.
 Open Scope Z_scope.
-Inductive c4case := C4P (pc : pcase) | C4Take (md : mode) (n : Z) (l : list Z) | C4Nth (n : Z) (l : list Z).
-Inductive c4out := C4PO (p : pout) | C4H (found : Z) (items : list Z) (rest : list Z).
+Inductive c4case := C4P (pc : pcase) | C4L2 (pc : pcase) | C4Take (md : mode) (n : Z) (l : list Z) | C4Nth (n : Z) (l : list Z).
+Inductive c4out := C4PO (p : pout) | C4PO2 (p : pout2) | C4H (found : Z) (items : list Z) (rest : list Z).
 
 Definition oracle_p (v : verdict) : bool := v_results_ok v && v_writes v.
 
 Definition check (x : c4case * c4out) : Z :=
   match x with
   | (C4P pc, C4PO p) => code (corr_exact pc p) (oracle_p (judge pc p))
+  | (C4L2 pc, C4PO2 p) =>
+      match model_of_id (pc_model pc) with
+      | Some m => code (match run_pcase2 pc with Some mo => pout2_eqb mo p | None => false end)
+                       (let v := judge pc (decode_pout2 pc m p) in v_results_ok v && v_picture v && v_no_anomaly v)
+      | None => 3
+      end
   | (C4Take md n l, C4H found items rest) =>
       (* both helper items were found in the source; model = implementation; and the items are what
          Iterator::take yields *)
